@@ -387,7 +387,7 @@ func c11JoinOnSuite(r *Result, rng *rand.Rand, tier string) {
 	}
 	var ops [][]interface{}
 	var pend []pending
-	fams := []string{"S", "C", "U", "R", "E"}
+	fams := []string{"S", "C", "U", "R", "E", "D"}
 	for i := 0; i < n; i++ {
 		f := c11Families[fams[i%len(fams)]]
 		pts := f.parentTables()
